@@ -71,4 +71,26 @@ def findC (s : List Char) (c : Char) (lo hi : Option Int) : Int :=
 def countC (s : List Char) (c : Char) (lo hi : Option Int) : Int :=
   countGo c s (adjO s.length 0 lo) (adjO s.length s.length hi)
 
+/-- `x in cs` for a one-character string `x` and a collection of characters (a `set` / `str` of single characters) -/
+def inChars (x : List Char) (cs : List Char) : Bool :=
+  match x with
+  | [c] => cs.contains c
+  | _ => false
+
+/-- `s.startswith(p, lo)`: CPython's tailmatch — a negative `lo` gets `len` added (clamped to 0), a `lo` beyond the
+    end is NOT clamped (then nothing, not even the empty prefix, matches) -/
+def startswith (s p : List Char) (lo : Option Int) : Bool :=
+  let lo' : Nat := match lo with
+    | none => 0
+    | some i => if i < 0 then (i + s.length).toNat else i.toNat
+  decide (lo' + p.length ≤ s.length) && ((s.drop lo').take p.length == p)
+
+/-- what a leaf `parseImpl` does: `return loc, tokens` | `raise ParseException(instring, loc, …)` | an IndexError
+    raised by an index expression -/
+inductive Ret where
+  | ok (loc : Int) (toks : List (List Char))
+  | parseExc (loc : Int)
+  | indexError
+  deriving Repr, DecidableEq
+
 end PP.Py
